@@ -39,6 +39,7 @@ class Report:
         self.assumptions = []
         self.rules = {}            # rule id -> text
         self._keys = {}
+        self.soft_floors = False   # secondary configurations: a lower instance count is expected, not an anchor loss
 
     def rule(self, rid, text):
         self.rules[rid] = text
@@ -66,6 +67,9 @@ class Report:
     def floor(self, rule, what, count, minimum):
         """fail closed when a rule matches fewer instances than were counted by hand"""
         self.analysed[f"{rule}.{what}"] = count
+        if count < minimum and self.soft_floors:
+            self.notes.append(f"{rule}: {what} = {count} (< {minimum}) in this secondary configuration")
+            return True
         if count < minimum:
             self.violations.append((rule, f"{rule}:floor:{what}",
                                     f"rule instance count fell below the audited floor: {what} = {count} < {minimum} "
@@ -81,6 +85,23 @@ class Report:
 
     def note(self, msg):
         self.notes.append(msg)
+
+    def absorb(self, other, tag):
+        """merge the report of a secondary configuration: instances already seen under the same key are dropped,
+        new ones are kept with the configuration tag"""
+        mine = {k for _, k, _, _ in self.obligations}
+        for rule, key, ok, loc in other.obligations:
+            if key in mine:
+                continue
+            self.obligations.append((rule, f"{key}@{tag}", ok, loc))
+        vk = {v[1] for v in self.violations}
+        for rule, key, msg, detail, loc in other.violations:
+            if key in vk or key in mine:
+                continue
+            self.violations.append((rule, f"{key}@{tag}", f"[configuration {tag}] {msg}", detail, loc))
+        for k, v in other.analysed.items():
+            self.analysed[f"{tag}:{k}"] = v
+        self.notes += [f"[{tag}] {n}" for n in other.notes]
 
     # ------------------------------------------------------------------ output
     def finish(self, db_meta, seed=0):
